@@ -396,9 +396,23 @@ def read_live_frames(src):
             arm = rest_[:rest_.find(",") + 1]
         direct = re.fullmatch(r"\{?\s*pending\s*\.\s*extend\(\s*refill\(\)\s*\.\s*await\s*\)\s*[;,]?\s*\}?", arm.strip())
         # `refill()` is asked until it answers (it never waits); what it answers is queued whole
-        polled = (re.search(r"let\s+history\s*=\s*loop\s*\{\s*if\s+let\s+Some\(\s*history\s*\)\s*=\s*refill\(\)\s*\{\s*break\s+history\s*;\s*\}\s*tokio::task::yield_now\(\)\s*\.\s*await\s*;\s*\}\s*;", arm)
-                  and re.search(r"pending\s*\.\s*extend\(\s*history\s*\)\s*;", arm)
-                  and len(re.findall(r"refill\(\)", arm)) == 1 and len(re.findall(r"\bpending\b", arm)) == 1)
+        # (a `#[cfg(rip_verif)] rip_kernel::verif::point("..");` statement is instrumentation: it is not there without the cfg)
+        arm_code = re.sub(r"#\[cfg\(rip_verif\)\]\s*rip_kernel::verif::point\(\s*\"[^\"]*\"\s*\)\s*;", "", arm)
+        POLL = (r"let\s+history\s*=\s*loop\s*\{\s*if\s+let\s+Some\(\s*history\s*\)\s*=\s*refill\(\)\s*\{\s*break\s+history\s*;\s*\}"
+                r"\s*tokio::task::yield_now\(\)\s*\.\s*await\s*;\s*\}\s*;\s*pending\s*\.\s*extend\(\s*history\s*\)\s*;")
+        # the WHOLE arm is read: the history is queued and NOTHING else happens - in particular the receiver stays the one
+        # that was subscribed before the attach snapshot (subscribe first, snapshot second holds for the re-read as well)
+        polled = re.fullmatch(r"\{\s*" + POLL + r"\s*\}", arm_code.strip())
+        # ... followed by `receiver = receiver.resubscribe();`: history first, a NEW receiver at the channel's tail second
+        resub = re.fullmatch(r"\{\s*" + POLL + r"\s*receiver\s*=\s*receiver\s*\.\s*resubscribe\(\)\s*;\s*\}", arm_code.strip())
+        if resub:
+            pops = re.search(r"let\s+Some\(\s*event\s*\)\s*=\s*pending\s*\.\s*pop_front\(\)\s*else\s*\{", body)
+            push = re.search(r"Ok\(\s*event\s*\)\s*=>\s*pending\s*\.\s*push_back\(\s*event\s*\)", body)
+            if pops and push and running and flt == "FilterGtLast":
+                lag = "LagRefillResubscribe"
+        # the receiver the loop reads is the fn's parameter all along: it is not assigned anywhere else either
+        if lag == "LagSkip" and re.search(r"\breceiver\s*=[^=]", re.sub(r"\(\s*mut\s+receiver\b", "(", body)) and not resub:
+            direct = polled = None
         if direct or polled:
             # the refilled frames must go through the same filters: they are queued in `pending`, which the loop pops first
             pops = re.search(r"let\s+Some\(\s*event\s*\)\s*=\s*pending\s*\.\s*pop_front\(\)\s*else\s*\{", body)
@@ -838,6 +852,11 @@ def selftest():
     LAG2 = "Err(broadcast::error::RecvError::Lagged(_)) => { let history = loop { if let Some(history) = refill() { break history; } tokio::task::yield_now().await; }; pending.extend(history); }"
     assert mkl(LAG2, "<=", UPD)["lag"] == "LagRefill"
     assert mkl(LAG2.replace("pending.extend(history);", "drop(history);"), "<=", UPD)["lag"] == "LagSkip"
+    LAG3 = LAG2.replace("break history;", '#[cfg(rip_verif)] rip_kernel::verif::point("sse.live.refilled"); break history;')
+    assert mkl(LAG3, "<=", UPD)["lag"] == "LagRefill"
+    assert mkl(LAG3.replace("pending.extend(history);", "pending.extend(history); receiver = receiver.resubscribe();"), "<=", UPD)["lag"] == "LagRefillResubscribe"
+    assert mkl(LAG2.replace("pending.extend(history);", "pending.extend(history); receiver = receiver.resubscribe();"), "<=", UPD)["lag"] == "LagRefillResubscribe"
+    assert mkl(LAG2.replace("pending.extend(history);", "pending.extend(history); pending.clear();"), "<=", UPD)["lag"] == "LagSkip"
     hs = "impl H { pub(crate) async fn events_snapshot(&self) -> Vec<Event> { self.events.lock().await.clone() } pub(crate) fn try_events_snapshot(&self) -> Option<Vec<Event>> { let events = self.%B%.try_lock().ok()?; Some(events.clone()) } }"
     assert read_try_snapshot(hs.replace("%B%", "events"))[0] == "events"
     assert read_try_snapshot(hs.replace("%B%", "other"))[0] is None
